@@ -241,7 +241,46 @@ func catchPanic(function func()) (err error) {
 						return
 					}
 				}
-				err = errors.New(caught.string())
+				// Converting the thrown value to a string can run script code
+				// (toString, valueOf) which can throw in turn.
+				var message string
+				if errString := catchPanicNested(func() { message = caught.string() }); errString != nil {
+					err = errString
+					return
+				}
+				err = errors.New(message)
+				return
+			}
+			panic(caught)
+		}
+	}()
+	function()
+	return nil
+}
+
+// catchPanicNested is catchPanic for work done while already converting a
+// caught value, the thrown value of a second failure isn't converted again.
+func catchPanicNested(function func()) (err error) {
+	defer func() {
+		if caught := recover(); caught != nil {
+			if excep, ok := caught.(*exception); ok {
+				caught = excep.eject()
+			}
+			switch caught := caught.(type) {
+			case *Error:
+				err = caught
+				return
+			case ottoError:
+				err = &Error{caught}
+				return
+			case Value:
+				if vl := caught.object(); vl != nil {
+					if vl, ok := vl.value.(ottoError); ok {
+						err = &Error{vl}
+						return
+					}
+				}
+				err = errors.New("uncaught exception (its conversion to a string threw as well)")
 				return
 			}
 			panic(caught)
